@@ -1055,9 +1055,27 @@ func execute(name string, out io.Writer, ctx map[string]Value, env *Env) error {
 }
 
 // Method load attempts to load and parse the given template.
+// A loadError is a Loader's error together with the name of the template
+// that was being loaded.
+type loadError struct {
+	name string
+	err  error
+}
+
+func (e *loadError) Error() string { return "load " + e.name + ": " + e.err.Error() }
+
+// Unwrap returns the Loader's error.
+func (e *loadError) Unwrap() error { return e.err }
+
 func (env *Env) load(name string) (*parse.Tree, error) {
 	tpl, err := env.Loader.Load(name)
 	if err != nil {
+		if !strings.Contains(err.Error(), name) {
+			// A loader's own error ("permission denied") need not say which
+			// template was asked for; among includes and parents that is
+			// what one needs to know.
+			err = &loadError{name, err}
+		}
 		return nil, err
 	}
 	tree := parse.NewNamedTree(name, tpl.Contents())
